@@ -13,7 +13,8 @@ Clauses (Fail.clause):
   deref            every accessor of every alias returns or raises AliasResolutionError / CyclicAliasError, nothing else;
                    a returned final_target is a real (non-alias) object
   all-or-nothing   after a resolution step (and after dereferencing), a resolved alias has no unresolved link on its chain
-  fixpoint         an immediate second resolve_aliases(same arguments) returns the same unresolved set and changes
+  fixpoint         resolve_aliases never replaces an already loaded top-level module; an immediate second
+                   resolve_aliases(same arguments) returns the same unresolved set and changes
                    neither any alias's (resolved, target_path, chain end) nor the set of aliases / loaded modules
   terminates       an operation that does not finish within the per-call budget is re-run alone in a fresh process with a
                    100x budget; only if that does not finish either is it a failure (otherwise: class inconclusive-timeout)
